@@ -552,8 +552,11 @@ class UnicodeData:
             # Define the special block "No_Block", that contains all the other codepoints not
             # belonging to a defined block (https://www.unicode.org/Public/UNIDATA/Blocks.txt)
             no_block = UnicodeSubset([(0, maxunicode + 1)])
-            for v in self._blocks.values():
-                no_block -= v
+            # Iterate on a snapshot: another thread that makes the same first lookup inserts
+            # the 'NoBlock' key while this one is still subtracting the blocks.
+            for k, v in list(self._blocks.items()):
+                if k != 'NoBlock':
+                    no_block -= v
             self._blocks['NoBlock'] = no_block
             self._unicode_blocks['NOBLOCK'] = 'NoBlock'
             return no_block
